@@ -218,7 +218,7 @@ def run_shard(ctx):
         def one(case=case, rng=rng):
             d = ctx.fresh("m")
             odb = env.local_odb(d)
-            names = ["a", "b", "d/x", "d/y", "d/e/z", "é/日本"]
+            names = ["a", "b", "d/x", "d/y", "d/e/z", "é/日本", "cafe\u0301.txt", "caf\u00e9.txt", "e\u0301/x", "\u00e9/x"]
 
             def mk(listing):
                 if listing and rng.random() < 0.25:
